@@ -436,6 +436,11 @@ def main(prop, tier):
                 for tix in (0, 1):
                     items.append((prop, tier, perm, depth, word, (), "tt2t5tt2t", tix))
                     items.append((prop, tier, perm, depth, word, (("timeframe_fill", True),), "tt2t5tt2t", tix))
+        # a Hexital with its own timeframe, one member on the default candles and one explicitly on that same timeframe
+        for a, b in [("SMA2", "EMA2@T2"), ("OBV", "RSI2@T2"), ("MACD232", "SMA2@T4")]:
+            for perm in ((a, b), (b, a)):
+                for tix in (0, 1):
+                    items.append((prop, tier, perm, depth, word, (("timeframe", "T2"),), None, tix))
     rep = merge_all(pmap(bfs, items, chunksize=2))
     if prop == "C14":
         rule = ("breadth-first search from 3 initial states (empty, pre-loaded not calculated, calculated) over the menu {append 1|2, "
